@@ -1,6 +1,7 @@
 import PyhmsVerif.Model.Proto
 import PyhmsVerif.Model.Repair
 import PyhmsVerif.Model.Problem
+import PyhmsVerif.Model.Select
 /-!
 Line-protocol driver: one operation per input line, one answer per output line.
 `lake env lean --run Driver.lean < ops.txt`
@@ -35,6 +36,14 @@ def showFit : Fit → String
   | .posInf => "inf"
   | .negInf => "-inf"
   | .fin q => showRat q
+
+def indP : P Ind := do
+  let g ← list rat
+  let f ← fitP
+  pure ⟨g, f⟩
+
+def showInd (a : Ind) : String := showList showRat a.genome ++ " " ++ showFit a.fit
+def showInds (l : List Ind) : String := showList showInd l
 
 def wrapperP : P Problem.Wrapper := do
   let t ← tok
@@ -74,6 +83,25 @@ def handle : P String := do
   | "wrap" => do
     let mx ← bool; let ws ← list wrapperP; let vs ← list fitP
     pure (wrapTrace mx ws vs)
+  | "topk" => do
+    let mx ← bool; let k ← nat; let pop ← list indP
+    pure (showInds (Select.topk mx k pop))
+  | "topkok" => do
+    let mx ← bool; let k ← nat; let pop ← list indP; let out ← list indP
+    pure (showBool (Select.topkOk mx k pop out))
+  | "seaok" => do
+    let mx ← bool; let k ← nat; let par ← list indP; let off ← list indP
+    let el ← list indP; let out ← list indP
+    pure (showBool (Select.seaOk mx k par off el out))
+  | "seasel" => do
+    let mx ← bool; let k ← nat; let par ← list indP; let off ← list indP
+    pure (showInds (Select.seaSelect mx k par off))
+  | "desel" => do
+    let mx ← bool; let par ← list indP; let tr ← list indP
+    pure (showInds (Select.deSelect mx par tr))
+  | "best" => do
+    let mx ← bool; let pop ← list indP
+    pure (showOpt showInd (Select.best mx pop))
   | "rnd" => do
     let x ← rat
     pure (showOpt showRat (F64.rnd x))
